@@ -1,0 +1,18 @@
+//go:build verif
+
+package printer
+
+import "github.com/hattya/go.sh/ast"
+
+// VerifHook, when set, is called at the here-document bookkeeping
+// points of the printer (verification hook; build tag verif). op is
+// one of "push", "pop", "popnl", "redir", "newline", "suspend",
+// "resume", "nl" (a newline written by newline) and "body" (a
+// here-document written); r is the redirection concerned, or nil.
+var VerifHook func(op string, r *ast.Redir)
+
+func verifOp(op string, r *ast.Redir) {
+	if h := VerifHook; h != nil {
+		h(op, r)
+	}
+}
